@@ -198,7 +198,7 @@ pub fn for_property(prop: &str, tier: Tier) -> Vec<(SysCfg, RunOpts)> {
             }
         }
         "C05" => {
-            let m = cat(&after_end(), &menu(&["DN", "DC3", "DB2", "N,N", "C2"]));
+            let m = cat(&after_end(), &menu(&["DN", "DC3", "DB2", "N,N", "C2", "DN,S,N", "DC3,S,C3,L", "S"]));
             // (the inexact-hint and copied wrappers run the same waiting protocol: thorough tier only)
             let k5: Vec<K> = if q { all.iter().copied().filter(|k| !matches!(k, K::IterInexact | K::CopiedIter | K::ClonedVecRef)).collect() } else { all.clone() };
             s.pairs(&k5, if q { &l03 } else { &l04 }, &after_end(), &m, &d, &complete2());
@@ -339,6 +339,15 @@ pub fn for_property(prop: &str, tier: Tier) -> Vec<(SysCfg, RunOpts)> {
                     }
                 }
             }
+        }
+        "C16" => {
+            // zero-sized and extreme chunk sizes racing with ordinary pulls: the iterator must be left unchanged /
+            // behave mathematically under every interleaving as well
+            // (the cumulative number of requested positions stays below usize::MAX in every system: at most one chunk
+            // of usize::MAX/2 per system - the position counter is a finite machine word, cf. C01/C05)
+            let z = menu(&["C0,DN", "C0,C0,DC2", "C0,N,C0", "C0,DB2", "N,C0,I"]);
+            let m = cat(&z, &menu(&["DN", "DC2", "DB2", "N,N", "C2", "S,N", "C9223372036854775807:1,DN", "N,C9223372036854775807"]));
+            s.pairs(&main_kinds, &l03, &z, &m, &d, &complete2());
         }
         "C17" => {
             // queries racing with overshooting pulls, skips and drains: outcomes are compared between a build with
